@@ -80,6 +80,11 @@ def derived_schema(ver):
  <xs:simpleType name="stamps"><xs:list itemType="xs:dateTime"/></xs:simpleType>
  <xs:simpleType name="fmax"><xs:restriction base="xs:float"><xs:maxInclusive value="10"/></xs:restriction></xs:simpleType>
  <xs:simpleType name="dpos"><xs:restriction base="xs:double"><xs:minExclusive value="0"/></xs:restriction></xs:simpleType>
+ <xs:notation name="png" public="image/png"/><xs:notation name="jpg" public="image/jpeg"/><xs:notation name="gif" public="image/gif"/>
+ <xs:simpleType name="fmt"><xs:restriction base="xs:NOTATION"><xs:enumeration value="png"/><xs:enumeration value="jpg"/></xs:restriction></xs:simpleType>
+ <xs:simpleType name="fmt2"><xs:restriction base="fmt"><xs:pattern value="p.*"/></xs:restriction></xs:simpleType>
+ <xs:simpleType name="fmt3"><xs:restriction base="fmt2"/></xs:simpleType>
+ <xs:element name="fmt" type="fmt"/><xs:element name="fmt2" type="fmt2"/><xs:element name="fmt3" type="fmt3"/>
  <xs:simpleType name="money"><xs:restriction base="xs:decimal"><xs:totalDigits value="4"/><xs:fractionDigits value="2"/></xs:restriction></xs:simpleType>
  <xs:element name="small" type="small"/><xs:element name="smaller" type="smaller"/><xs:element name="word" type="word"/><xs:element name="en" type="en"/>
  <xs:element name="ilist" type="ilist"/><xs:element name="ilist2" type="ilist2"/><xs:element name="u" type="u"/><xs:element name="money" type="money"/>
@@ -134,6 +139,8 @@ REF = {
     'twoShortA': lambda t: _us(t, r'[a-z]+ [a-z]+|[0-9]+') and _us(t, r'.{1,5}') and _us(t, r'[a1].*'),
     'durs': lambda t: all(re.fullmatch(r'-?P(?=.)([0-9]+Y)?([0-9]+M)?([0-9]+D)?(T(?=.)([0-9]+H)?([0-9]+M)?([0-9]+(\.[0-9]+)?S)?)?', x) is not None for x in t.split(' ')) if t else True,
     'stamps': lambda t: all(re.fullmatch(r'-?[0-9]{4}-[0-9]{2}-[0-9]{2}T[0-9]{2}:[0-9]{2}:[0-9]{2}(\.[0-9]+)?(Z|[+-][0-9]{2}:[0-9]{2})?', x) is not None for x in t.split(' ')) if t else True,
+    # xs:NOTATION: the enumeration of a step is inherited by the steps that restrict it further (by a pattern, or by nothing at all)
+    'fmt': lambda t: t in ('png', 'jpg'), 'fmt2': lambda t: t == 'png', 'fmt3': lambda t: t == 'png',
     'money': lambda t: re.fullmatch(r'[+-]?([0-9]+(\.[0-9]*)?|\.[0-9]+)', t) is not None and sum(digits(t)) <= 4 and digits(t)[1] <= 2,
 }
 UNION_DECODE = lambda t: int(t) if REF['small'](t) else (t in ('true', '1')) if t in ('true', 'false', '1', '0') else t
@@ -145,7 +152,7 @@ VALUES = ['ab cd', 'ab  cd', ' ab cd', 'ab cd ', '  ab', ' ab', '12', ' 12 ', 'a
 def eval_derived(args):
     ver, name, v = args
     s = _S.setdefault(ver, derived_schema(ver))
-    t = v if name not in ('word', 'en', 'ien', 'qn23', 'qn2', 'tok23', 'ilist', 'ilist2', 'code3', 'price2', 'pt3', 'u', 'umix', 'small', 'smaller', 'money', 'durs', 'stamps', 'strs2', 'fmax', 'dpos', 'uenum') else re.sub(r' +', ' ', re.sub(r'[\t\n\r]', ' ', v)).strip(' ')
+    t = v if name not in ('word', 'en', 'ien', 'qn23', 'qn2', 'tok23', 'ilist', 'ilist2', 'code3', 'price2', 'pt3', 'u', 'umix', 'small', 'smaller', 'money', 'durs', 'stamps', 'strs2', 'fmax', 'dpos', 'uenum', 'fmt', 'fmt2', 'fmt3') else re.sub(r' +', ' ', re.sub(r'[\t\n\r]', ' ', v)).strip(' ')
     exp = REF[name](t)
     doc = f'<{name}>{v}</{name}>'
     try: got = s.is_valid(doc)
@@ -247,7 +254,7 @@ def run(tier, seed, open_findings):
     dbad = [b for r in pmap(eval_digits, [nums[i::16] for i in range(16)], procs=16) for b in r]
     out.append(result('C02.count_digits', f'{len(nums)} spellings of decimals with <= 3 significant digits and exponent -4..2', len(nums),
                       [dict(case=dict(number=b['number']), observed=b['got'], required=b['want']) for b in dbad], exhaustive=True, samples=[dict(number=nums[10])]))
-    cases = [(ver, name, v) for ver in ('1.0', '1.1') for name in REF for v in (DVALUES if name in ('durs', 'stamps') else VALUES)]
+    cases = [(ver, name, v) for ver in ('1.0', '1.1') for name in REF for v in (DVALUES if name in ('durs', 'stamps') else VALUES + ['png', ' jpg ', 'gif', 'bmp', 'pn g'] if name.startswith('fmt') else VALUES)]
     res = pmap(eval_derived, cases)
     from .C02 import classify
     fails = []; known = {}
